@@ -88,7 +88,7 @@ def generate(rng, seed, run, tier, focus='C11', xmode=False):
     if xmode:
         n_peers = 0
     twin = n_peers == 2 and rng.random() < 0.5
-    big = focus == 'C11' and rng.random() < (0.03 if tier == 'quick' else 0.08)
+    big = focus == 'C11' and rng.random() < (0.04 if tier == 'quick' else 0.08)
     cfg = {'focus': focus, 'n_nodes': n_peers + 1,
            'node_seeds': [rng.randrange(1, 2 ** 31) for _ in range(n_peers)],
            'aslr_off': twin or rng.random() < 0.3, 'twin': twin, 'big': big,
@@ -103,7 +103,7 @@ def generate(rng, seed, run, tier, focus='C11', xmode=False):
     nodes = list(range(cfg['n_nodes']))
     slots = {}       # (node, slot) -> dict(li, n, m, nc, kind)
     files = {}       # target -> dict(form, li, ...)
-    bases = ['a', 'b', 'c'][:rng.randint(1, 3)]
+    bases = ['a', 'b.c', 'd e'][:rng.randint(1, 3)]
     slot_names = ['s0', 's1', 's2', 's3']
 
     def new_labels(n, m):
